@@ -9,7 +9,8 @@ trap 'rm -rf "$d"' EXIT
 cp -r /repo "$d/repo"
 if ! git -C "$d/repo" apply "$patch"; then echo "PATCH DOES NOT APPLY"; exit 3; fi
 . scripts/env.sh
-( cd "$d/repo" && $GO build ./... ) || { echo "MUTANT DOES NOT COMPILE"; exit 3; }
+pkgs=$(grep -E '^\+\+\+ b/.*\.go$' "$patch" | sed -E 's#^\+\+\+ b/##' | xargs -n1 dirname | sed 's#^#./#' | sort -u | tr '\n' ' ')
+( cd "$d/repo" && $GO build $pkgs ) || { echo "MUTANT DOES NOT COMPILE"; exit 3; }
 VERIF_REPO="$d/repo" ./check "$id" "$@"; rc=$?
 echo "mutrun: check $id on $(basename "$patch") -> exit $rc"
 exit $rc
